@@ -231,8 +231,9 @@ pub fn drive<B: Body>(prop: &str, body: &B, classes: &[Cls], n: usize, cfg: &Run
                                 expected: f.expected.clone(),
                             });
                         }
-                        if rep.samples.len() < 3 {
-                            rep.samples.push(std::format!(
+                        // prefer samples of paths on which something matched
+                        if rep.samples.len() < 3 && (s.matched || rep.samples.is_empty()) && !text.is_empty() {
+                            rep.samples.insert(0, std::format!(
                                 "{{\"layout\":{:?},\"pos\":{},\"path_condition\":{},\"model_text\":{},\"observed\":{}}}",
                                 widths,
                                 pos,
